@@ -26,8 +26,12 @@ import (
 
 	"github.com/compose-spec/compose-go/v2/cli"
 	"github.com/compose-spec/compose-go/v2/graph"
+	interp "github.com/compose-spec/compose-go/v2/interpolation"
+	"github.com/compose-spec/compose-go/v2/template"
 	"github.com/compose-spec/compose-go/v2/loader"
 	"github.com/compose-spec/compose-go/v2/types"
+	"github.com/distribution/reference"
+	godigest "github.com/opencontainers/go-digest"
 	"github.com/sirupsen/logrus"
 )
 
@@ -95,6 +99,7 @@ type Group struct {
 	FailAt   int    `json:"fail_at,omitempty"` // callback index that fails (-1 none)
 	ViaCLI   bool   `json:"via_cli,omitempty"` // loads go through cli.ProjectOptions.LoadProject
 	ShareFiles bool `json:"share_config_files,omitempty"` // goroutines loading the same layout pass the same ConfigFiles slice
+	ShareInterp bool `json:"share_interpolation_options,omitempty"` // all loads of the group pass the same *interp.Options through their option function
 	ShareEnv   bool `json:"share_environment,omitempty"`  // goroutines loading the same layout pass the same Environment map (one ConfigDetails value used twice)
 }
 
@@ -162,7 +167,11 @@ func spin(p *prng) {
 }
 
 // loadOnce performs one load with its OWN ConfigDetails, environment map and options.
-func loadOnce(L *Layout, p *prng, perturb bool) outcome { return loadVia(L, p, perturb, false, nil, nil) }
+func loadOnce(L *Layout, p *prng, perturb bool) outcome { return loadVia(L, p, perturb, false, nil, nil, nil) }
+
+// callerInterp: interpolation settings as a caller may supply them through an option function - only the
+// substitution function is set (variables are then looked up in the process environment, nothing is cast).
+func callerInterp() *interp.Options { return &interp.Options{Substitute: template.Substitute} }
 
 // configFiles builds the list of files to load (file names only: the loader reads them).
 func configFiles(L *Layout) []types.ConfigFile {
@@ -175,7 +184,7 @@ func configFiles(L *Layout) []types.ConfigFile {
 
 // loadVia performs one load. Every call has its own Environment map and options; `shared`, when not nil, is a
 // ConfigFiles slice handed to several concurrent calls (an input the loader has no business writing to).
-func loadVia(L *Layout, p *prng, perturb, viaCLI bool, shared []types.ConfigFile, sharedEnv types.Mapping) outcome {
+func loadVia(L *Layout, p *prng, perturb, viaCLI bool, shared []types.ConfigFile, sharedEnv types.Mapping, ip *interp.Options) outcome {
 	cd := types.ConfigDetails{WorkingDir: filepath.Join(L.root, L.WorkingDir), Environment: types.Mapping{}}
 	if sharedEnv != nil {
 		// the same ConfigDetails value handed to several loads: an input, not a scratch pad
@@ -204,6 +213,9 @@ func loadVia(L *Layout, p *prng, perturb, viaCLI bool, shared []types.ConfigFile
 			name = "defaultproj"
 		}
 		lo.SetProjectName(name, o.NameImperative)
+		if ip != nil {
+			lo.Interpolate = ip // a caller-provided value, possibly shared with concurrent loads: the loader may read it
+		}
 		if perturb {
 			// a listener is a caller-supplied function the library calls on its hot paths (extends/include)
 			lo.Listeners = append(lo.Listeners, func(string, map[string]any) { spin(p) })
@@ -282,14 +294,18 @@ func TestSoloChild(t *testing.T) {
 			os.Exit(2)
 		}
 		L.name, L.root = n, roots[i]
-		last = loadVia(L, &prng{x: 1}, false, os.Getenv("VERIF_SOLO_CLI") == "1", nil, nil)
+		var ip *interp.Options
+		if os.Getenv("VERIF_SOLO_INTERP") == "1" {
+			ip = callerInterp()
+		}
+		last = loadVia(L, &prng{x: 1}, false, os.Getenv("VERIF_SOLO_CLI") == "1", nil, nil, ip)
 	}
 	b, _ := json.Marshal(map[string]any{"ok": last.ok, "hash": last.hash, "err": last.err})
 	fmt.Println("SOLO-CHILD-RESULT " + string(b))
 }
 
 // freshProcess loads the sequence in a new process and returns the outcome of its last element.
-func freshProcess(names, roots []string, viaCLI bool) (outcome, error) {
+func freshProcess(names, roots []string, viaCLI bool, withInterp ...bool) (outcome, error) {
 	nb, _ := json.Marshal(names)
 	rb, _ := json.Marshal(roots)
 	cmd := exec.Command(os.Args[0], "-test.run", "^TestSoloChild$", "-test.timeout", "120s")
@@ -298,6 +314,9 @@ func freshProcess(names, roots []string, viaCLI bool) (outcome, error) {
 		cli = "1"
 	}
 	cmd.Env = append(os.Environ(), "VERIF_SOLO_SEQ="+string(nb), "VERIF_SOLO_ROOTS="+string(rb), "VERIF_SOLO_CLI="+cli, "VERIF_OUT=", "GOMAXPROCS=2")
+	if len(withInterp) > 0 && withInterp[0] {
+		cmd.Env = append(cmd.Env, "VERIF_SOLO_INTERP=1")
+	}
 	b, err := cmd.Output()
 	for _, line := range strings.Split(string(b), "\n") {
 		if rest, ok := strings.CutPrefix(line, "SOLO-CHILD-RESULT "); ok {
@@ -403,8 +422,8 @@ func TestRace(t *testing.T) {
 				roots = append(roots, layouts[n].root)
 			}
 			last := len(g.Layouts) - 1
-			alone, e1 := freshProcess(g.Layouts[last:], roots[last:], g.ViaCLI)
-			after, e2 := freshProcess(g.Layouts, roots, g.ViaCLI)
+			alone, e1 := freshProcess(g.Layouts[last:], roots[last:], g.ViaCLI, g.ShareInterp)
+			after, e2 := freshProcess(g.Layouts, roots, g.ViaCLI, g.ShareInterp)
 			if e1 == nil && e2 == nil && (alone.ok != after.ok || alone.hash != after.hash) {
 				sc, _ := json.Marshal(g)
 				res.Violations = append(res.Violations, Violation{Property: "C19", Clause: "result-differs-from-fresh-process", Key: "load-result-differs-from-what-a-fresh-process-returns",
@@ -436,6 +455,10 @@ func TestRace(t *testing.T) {
 					}
 				}
 			}
+			var groupInterp *interp.Options
+			if g.ShareInterp {
+				groupInterp = callerInterp()
+			}
 			for i := range g.Layouts {
 				wg.Add(1)
 				i := i
@@ -458,7 +481,7 @@ func TestRace(t *testing.T) {
 						// whole process ("concurrent map writes"), which would cost the worker its remaining budget
 						time.Sleep(time.Duration(i) * 150 * time.Millisecond)
 					}
-					outs[i] = loadVia(L, p, g.Perturb, g.ViaCLI, sharedFiles[L.name], sharedEnv[L.name])
+					outs[i] = loadVia(L, p, g.Perturb, g.ViaCLI, sharedFiles[L.name], sharedEnv[L.name], groupInterp)
 				}()
 			}
 			for int(ready.Load()) < len(g.Layouts) {
@@ -494,6 +517,101 @@ func TestRace(t *testing.T) {
 				}
 			}
 			res.Counters["real-thread-transforms"]++
+		case "shared-derivations":
+			// several callers derive from (and render, and walk) the SAME loaded project at once: every one of these
+			// operations promises to leave its receiver alone
+			if len(g.Layouts) == 0 {
+				break
+			}
+			L := layouts[g.Layouts[0]]
+			cd := types.ConfigDetails{WorkingDir: filepath.Join(L.root, L.WorkingDir), Environment: types.Mapping{}, ConfigFiles: configFiles(L)}
+			for k, v := range L.Env {
+				cd.Environment[k] = v
+			}
+			p, err := loader.LoadWithContext(context.Background(), cd, func(lo *loader.Options) {
+				lo.SetProjectName("shared", true)
+				lo.SkipConsistencyCheck = true
+				lo.Profiles = []string{"dev"}
+			})
+			if err != nil || p == nil {
+				res.Counters["shared-derivations-load-failed"]++
+				break
+			}
+			before, _ := p.MarshalJSON()
+			names := p.ServiceNames()
+			var disabled []string
+			for n := range p.DisabledServices {
+				disabled = append(disabled, n)
+			}
+			sort.Strings(disabled)
+			ops := []func(){
+				func() { _, _ = p.WithServicesEnvironmentResolved(false) },
+				func() { _, _ = p.WithServicesEnvironmentResolved(true) },
+				func() { _, _ = p.WithServicesLabelsResolved(false) },
+				func() { _, _ = p.WithProfiles([]string{"*"}) },
+				func() { _, _ = p.WithProfiles(p.Profiles) },
+				func() {
+					if len(disabled) > 0 {
+						_, _ = p.WithServicesEnabled(disabled[0])
+					}
+				},
+				func() {
+					if len(names) > 0 {
+						_ = p.WithServicesDisabled(names[0])
+					}
+				},
+				func() {
+					if len(names) > 0 {
+						_, _ = p.WithSelectedServices(names[len(names)-1:])
+					}
+				},
+				func() { _ = p.WithoutUnnecessaryResources() },
+				func() {
+					_, _ = p.WithImagesResolved(func(named reference.Named) (godigest.Digest, error) { return godigest.FromString(named.String()), nil })
+				},
+				func() {
+					_, _ = p.WithServicesTransform(func(name string, s types.ServiceConfig) (types.ServiceConfig, error) {
+						s.Labels = s.Labels.Add("seen", name)
+						return s, nil
+					})
+				},
+				func() {
+					_ = p.ForEachService(names, func(name string, s *types.ServiceConfig) error {
+						s.Labels = s.Labels.Add("seen", name)
+						if len(s.Command) > 0 {
+							s.Command[0] = "changed"
+						}
+						return nil
+					})
+				},
+				func() { _, _ = p.MarshalYAML() },
+				func() { _, _ = p.MarshalJSON() },
+				func() {
+					_ = graph.InDependencyOrder(context.Background(), p, func(ctx context.Context, name string, s types.ServiceConfig) error { return nil })
+				},
+				func() { _ = p.AllServices(); _ = p.VolumeNames(); _ = p.NetworkNames() },
+			}
+			var wg sync.WaitGroup
+			for i := 0; i < 2+g.Threads; i++ {
+				wg.Add(1)
+				op := ops[int((g.Seed>>8)+uint64(i)*7)%len(ops)]
+				pp := &prng{x: g.Seed + uint64(i)}
+				go func() {
+					defer wg.Done()
+					if g.Perturb {
+						spin(pp)
+					}
+					op()
+				}()
+			}
+			wg.Wait()
+			after, _ := p.MarshalJSON()
+			if string(before) != string(after) {
+				sc, _ := json.Marshal(g)
+				res.Violations = append(res.Violations, Violation{Property: "C19", Clause: "shared-project-modified", Key: "shared-project-modified-by-concurrent-derivations",
+					Detail: fmt.Sprintf("layout %s: the project rendered differently after %d concurrent derivations", L.name, 2+g.Threads), Engine: "race", RunIndex: idx, RunSeed: g.Seed, Scenario: sc})
+			}
+			res.Counters["real-thread-shared-derivations"]++
 		case "shared-traversal":
 			// several callers walk the SAME project at once: the walk promises not to modify it
 			p := project(g.N)
@@ -556,9 +674,14 @@ func TestRace(t *testing.T) {
 				if pc.g.ViaCLI {
 					skey += "#cli"
 				}
+				var soloInterp *interp.Options
+				if pc.g.ShareInterp {
+					skey += "#interp"
+					soloInterp = callerInterp()
+				}
 				s, ok := solo[skey]
 				if !ok {
-					s = loadVia(layouts[name], &prng{x: seed}, false, pc.g.ViaCLI, nil, nil)
+					s = loadVia(layouts[name], &prng{x: seed}, false, pc.g.ViaCLI, nil, nil, soloInterp)
 					solo[skey] = s
 					if s.ok {
 						res.Counters["solo-ok"]++
@@ -568,16 +691,16 @@ func TestRace(t *testing.T) {
 					// third oracle: "what it would return alone" is what a process that has done nothing else
 					// returns. The layouts are shared out among the workers (each is checked by one of them).
 					if replay != nil || layoutIdx[name]%workers == worker%workers {
-						fresh, err := freshProcess([]string{name}, []string{layouts[name].root}, pc.g.ViaCLI)
+						fresh, err := freshProcess([]string{name}, []string{layouts[name].root}, pc.g.ViaCLI, pc.g.ShareInterp)
 						switch {
 						case err != nil:
 							fmt.Fprintln(os.Stderr, err)
 							res.Counters["fresh-process-child-failed"]++
 						case fresh.ok != s.ok || fresh.hash != s.hash:
 							// which earlier load does it take? try each one, sequentially, in a process of its own
-							g := Group{Kind: "sequence", Layouts: append(append([]string(nil), loadedOrder...), name), ViaCLI: pc.g.ViaCLI, Seed: pc.g.Seed}
+							g := Group{Kind: "sequence", Layouts: append(append([]string(nil), loadedOrder...), name), ViaCLI: pc.g.ViaCLI, ShareInterp: pc.g.ShareInterp, Seed: pc.g.Seed}
 							for _, p := range loadedOrder {
-								if two, err := freshProcess([]string{p, name}, []string{layouts[p].root, layouts[name].root}, pc.g.ViaCLI); err == nil && (two.ok != fresh.ok || two.hash != fresh.hash) {
+								if two, err := freshProcess([]string{p, name}, []string{layouts[p].root, layouts[name].root}, pc.g.ViaCLI, pc.g.ShareInterp); err == nil && (two.ok != fresh.ok || two.hash != fresh.hash) {
 									g.Layouts = []string{p, name}
 									break
 								}
@@ -652,6 +775,7 @@ func TestRace(t *testing.T) {
 				g.ShareFiles = master.n(3) == 0
 				g.Threads = 2 + master.n(15)
 				same := master.n(3) == 0
+				g.ShareInterp = !g.ViaCLI && master.n(5) == 0
 				if !g.ViaCLI && shareEnvGroups < 12 && master.n(4) == 0 {
 					// one ConfigDetails value (hence one Environment map) loaded by two goroutines
 					g.ShareEnv, g.Threads, same = true, 2, true
@@ -665,7 +789,7 @@ func TestRace(t *testing.T) {
 						g.Layouts = append(g.Layouts, names[master.n(len(names))])
 					}
 				}
-				nt[fmt.Sprintf("loads:%v:%v:%v:%v", g.Layouts, g.Perturb, g.ViaCLI, g.ShareEnv)] = true
+				nt[fmt.Sprintf("loads:%v:%v:%v:%v:%v", g.Layouts, g.Perturb, g.ViaCLI, g.ShareEnv, g.ShareInterp)] = true
 			case k < 9:
 				g.Kind = "transform"
 				g.N = master.n(7)
@@ -677,6 +801,9 @@ func TestRace(t *testing.T) {
 				g.Kind = "traversal"
 				if master.n(4) == 0 {
 					g.Kind = "shared-traversal"
+				} else if master.n(2) == 0 {
+					g.Kind = "shared-derivations"
+					g.Layouts = []string{names[master.n(len(names))]}
 				}
 				g.N = master.n(7)
 				g.Threads = master.n(4)
